@@ -7,9 +7,11 @@ import (
 )
 
 // EvoEdit is one schema-evolution edit, classified as docs/cpp/evolution.md classifies it.
-//   compatible: accepted, no diagnostics
-//   warning:    accepted ("partially compatible"), at least one warning
-//   error:      rejected ("incompatible")
+//
+//	compatible: accepted, no diagnostics
+//	warning:    accepted ("partially compatible"), at least one warning
+//	error:      rejected ("incompatible")
+//
 // Apply edits p in place (p is the NEW version; the caller keeps the old one) and reports
 // where it was applied, or ok=false when the edit has no applicable position in p.
 type EvoEdit struct {
@@ -249,6 +251,9 @@ var EvoEdits = []EvoEdit{
 	{"make-optional", "warning", func(t *rapid.T, p *Package, env *Env) (string, bool) {
 		var c []fieldPos
 		for _, fp := range fieldPositions(p, env, true, true) {
+			if fp.Def.Fields[fp.Idx].Type.Kind == KStream {
+				continue // the document only speaks of fields and (its example) plain steps
+			}
 			get, _ := payload(&fp.Def.Fields[fp.Idx])
 			x := get()
 			u := env.Underlying(x)
@@ -267,6 +272,9 @@ var EvoEdits = []EvoEdit{
 	{"make-non-optional", "warning", func(t *rapid.T, p *Package, env *Env) (string, bool) {
 		var c []fieldPos
 		for _, fp := range fieldPositions(p, env, true, true) {
+			if fp.Def.Fields[fp.Idx].Type.Kind == KStream {
+				continue // the document only speaks of fields and (its example) plain steps
+			}
 			get, _ := payload(&fp.Def.Fields[fp.Idx])
 			if x := get(); x.Kind == KOptional && !usesField(fp.Def, fp.Def.Fields[fp.Idx].Name) {
 				c = append(c, fp)
@@ -283,6 +291,9 @@ var EvoEdits = []EvoEdit{
 	{"optional-to-union", "warning", func(t *rapid.T, p *Package, env *Env) (string, bool) {
 		var c []fieldPos
 		for _, fp := range fieldPositions(p, env, true, true) {
+			if fp.Def.Fields[fp.Idx].Type.Kind == KStream {
+				continue // the document only speaks of fields and (its example) plain steps
+			}
 			get, _ := payload(&fp.Def.Fields[fp.Idx])
 			if x := get(); x.Kind == KOptional && x.Elem.Kind == KPrim && x.Elem.Prim != "bool" && !usesField(fp.Def, fp.Def.Fields[fp.Idx].Name) {
 				c = append(c, fp)
